@@ -14,6 +14,28 @@ _SCRATCH = None
 _OWNER = [None]
 
 
+def _reap_stale(base):
+    """Remove scratch directories whose owning process is gone (a check that
+    was killed by its wall timeout cannot clean up after itself)."""
+    try:
+        names = os.listdir(base)
+    except OSError:
+        return
+    for name in names:
+        if not name.startswith("verif-sasmodels-"):
+            continue
+        parts = name.split("-")
+        try:
+            pid = int(parts[2])
+            os.kill(pid, 0)
+        except (IndexError, ValueError):
+            pid = None
+        except ProcessLookupError:
+            shutil.rmtree(os.path.join(base, name), ignore_errors=True)
+        except PermissionError:
+            pass
+
+
 def scratch_root():
     """One directory per check invocation, on tmpfs when there is one,
     removed at exit.  Nothing a later command needs is kept here."""
@@ -21,7 +43,8 @@ def scratch_root():
     if _SCRATCH is None:
         base = "/dev/shm" if os.path.isdir("/dev/shm") and os.access("/dev/shm", os.W_OK) \
             else os.environ.get("TMPDIR", "/tmp")
-        _SCRATCH = tempfile.mkdtemp(prefix="verif-sasmodels-", dir=base)
+        _reap_stale(base)
+        _SCRATCH = tempfile.mkdtemp(prefix="verif-sasmodels-%d-" % os.getpid(), dir=base)
         owner = os.getpid()
         _OWNER[0] = owner
 
